@@ -53,6 +53,28 @@ type cluster struct {
 	cases   int
 	serial  int
 	stopped bool
+	stopMu  sync.Mutex
+	stopCn  map[int]bool // connections already stopped (a peer of the broadcast class may stop while the calls run)
+}
+
+// stopConn stops connection i once; wait = on the calling goroutine.
+func (cl *cluster) stopConn(i int, wait bool) {
+	cl.stopMu.Lock()
+	if cl.stopCn == nil {
+		cl.stopCn = map[int]bool{}
+	}
+	done := cl.stopCn[i]
+	cl.stopCn[i] = true
+	cl.stopMu.Unlock()
+	if done {
+		return
+	}
+	c := cl.conns[i]
+	if wait {
+		_ = c.Stop()
+		return
+	}
+	go func() { _ = c.Stop() }()
 }
 
 var clusterSerial int32
@@ -108,9 +130,8 @@ func (cl *cluster) stop() {
 		return
 	}
 	cl.stopped = true
-	for _, c := range cl.conns {
-		c := c
-		go func() { _ = c.Stop() }()
+	for i := range cl.conns {
+		cl.stopConn(i, false)
 	}
 }
 
